@@ -109,7 +109,10 @@ def symmetries(cx, plane, what):
     cx.prove_eq("fourth_power", pathway_prefactor(cx, e, [sc * v for v in d]), sc ** 4 * base, tol=1e-9)
 
 
-def _pathway_sums(cx, energies, dips, mult):
+PHASES = [(3, 4, 5), (5, 12, 13), (8, 15, 17)]     # exact points of the unit circle (a + i b)/c
+
+
+def _pathway_sums(cx, energies, dips, mult, evolve=False, widths=None):
     """real Aggregate.build/diagonalize/liouville_pathways_3T with symbolic site dipoles, concrete
     site energies, zero coupling, waiting time 0 (identity evolution), all-parallel polarisations;
     returns {(type, w1, w3): sum of prefactors}"""
@@ -121,6 +124,8 @@ def _pathway_sums(cx, energies, dips, mult):
         for e in energies:
             m = qr.Molecule(elenergies=[0.0, e])
             m.set_dipole(0, 1, [1.0, 0.0, 0.0])
+            if widths is not None:
+                m.set_transition_width((0, 1), widths[len(mols)])
             mols.append(m)
         agg = qr.Aggregate(molecules=mols)
         if n > 1:
@@ -140,20 +145,58 @@ def _pathway_sums(cx, energies, dips, mult):
         for i in range(N):
             for j in range(N):
                 U.data[i, j, i, j] = 1.0
+        sigs = [tuple(st.elstate.elsignature) if hasattr(st, "elstate") else tuple(st.elsignature)
+                for (_, st) in agg.all_states]
+        order_ok = bool(numpy.all(numpy.diff(numpy.diag(numpy.asarray(agg.HH, dtype=float))) > 0))
+    if evolve:
+        # unitary waiting-time evolution of independent molecules: molecule m's excited state acquires the
+        # phase phi_m, a state the product of its excited molecules' phases; U[ab,ab] = phi_a conj(phi_b)
+        cx.prove("site_states_ordered_by_energy", order_ok and len(sigs) == N)
+        from fractions import Fraction
+        if cx.sym:
+            from symnum import core
+            one = core.mk(Fraction(1), Fraction(0))
+            mol_phase = [core.mk(Fraction(a, c), Fraction(b, c)) for (a, b, c) in PHASES]
+            Ud = core.zeros((N, N, N, N))
+        else:
+            one = 1.0 + 0j
+            mol_phase = [complex(a, b) / c for (a, b, c) in PHASES]
+            Ud = numpy.zeros((N, N, N, N), dtype=complex)
+        ph = []
+        for sg in sigs:
+            v = one
+            for m, occ in enumerate(sg):
+                if occ:
+                    v = v * mol_phase[m + (evolve if isinstance(evolve, int) and not isinstance(evolve, bool) else 0)]
+            ph.append(v)
+        for i in range(N):
+            for j in range(N):
+                Ud[i, j, i, j] = ph[i] * ph[j].conjugate()
+        U._data = Ud
+    with cx.concrete():
         lab = qr.LabSetup()
         lab.set_pulse_polarizations(pulse_polarizations=(X, X, X), detection_polarization=X)
     types = ("R1g", "R2g", "R3g", "R4g", "R1f*", "R2f*") if mult > 1 and n > 1 else ("R1g", "R2g", "R3g", "R4g")
-    pws = agg.liouville_pathways_3T(ptype=types, eUt=U, ham=agg.get_Hamiltonian(), t2=0.0, lab=lab)
+    pws = agg.liouville_pathways_3T(ptype=types, eUt=U, ham=agg.get_Hamiltonian(), t2=0.0 if not evolve else 10.0,
+                                    lab=lab)
     sums = {}
     for p in pws:
         noe = 1 + p.order + p.relax_order
         key = (p.pathway_type, round(float(p.frequency[0]), 6), round(float(p.frequency[noe - 2]), 6))
+        if widths is not None:
+            # line widths of the first and the third interval belong to the peak
+            key = key + (round(float(p.widths[1]), 9), round(float(p.widths[3]), 9))
         sums[key] = sums.get(key, 0) + p.pref
     return sums, len(pws)
 
 
 @harness("C12", "uncoupled_additivity",
-         quick=[dict(energies=[1.0, 1.2])], thorough=[dict(energies=[1.0, 1.2]), dict(energies=[1.0, 1.15, 1.3])],
+         quick=[dict(energies=[1.0, 1.2]), dict(energies=[1.0, 1.2], evolve=True),
+                dict(energies=[1.2, 1.0], widths=[0.09, 0.16]), dict(energies=[1.3, 1.0, 1.15], widths=[0.1936, 1.3689, 5.76])],
+         thorough=[dict(energies=[1.0, 1.2]), dict(energies=[1.0, 1.15, 1.3]), dict(energies=[1.0, 1.2], evolve=True),
+                   dict(energies=[1.0, 1.15, 1.3], evolve=True), dict(energies=[1.2, 1.0], widths=[0.09, 0.16])] +
+                  [dict(energies=list(e), widths=[0.1936, 1.3689, 5.76]) for e in
+                   ((1.0, 1.15, 1.3), (1.15, 1.0, 1.3), (1.3, 1.0, 1.15), (1.15, 1.3, 1.0), (1.3, 1.15, 1.0))],
          functions=["quantarhei/builders/aggregate_spectroscopy.py:liouville_pathways_3T",
                     "quantarhei/builders/aggregate_spectroscopy.py:generate_R1g",
                     "quantarhei/builders/aggregate_spectroscopy.py:generate_R2g",
@@ -165,25 +208,32 @@ def _pathway_sums(cx, energies, dips, mult):
                     F_DIA + ":liouville_pathway.orientational_averaging",
                     "quantarhei/builders/aggregate_base.py:AggregateBase.build"],
          bound="uncoupled dimer (thorough trimer) with two-exciton states, concrete distinct site energies, "
-               "arbitrary (generic: above the tolerance filter) site dipole vectors, waiting time 0, all-parallel "
-               "polarisations: summed pathway prefactors at every cross-peak position vanish (ESA cancels GSB+SE), "
+               "arbitrary (generic: above the tolerance filter) site dipole vectors, waiting time 0 (identity) and "
+               "a non-zero waiting time with the unitary evolution of independent molecules (exact rational points "
+               "of the unit circle as the molecules' phases, so coherences during t2 are not real), all-parallel "
+               "polarisations; molecules listed in any energy order with different phenomenological line widths "
+               "(the widths of the first and third interval are part of the peak's identity): "
+               "summed pathway prefactors at every cross-peak position vanish (ESA cancels GSB+SE), "
                "and at every diagonal position equal those of the molecule taken alone, separately for the "
                "rephasing and non-rephasing signals",
-         out="line shapes, non-zero waiting times, coupled aggregates, other polarisation sequences")
-def uncoupled_additivity(cx, energies):
+         out="line shapes, relaxation during the waiting time, coupled aggregates, other polarisation sequences")
+def uncoupled_additivity(cx, energies, evolve=False, widths=None):
+    # widths: squares whose pairwise sums are squares too (Euler brick 44, 117, 240), so that every square root
+    # the code takes of a width is an exact rational and the widths stay concrete numbers in symbolic mode
     n = len(energies)
     dips = [cx.real_array("d%d" % i, 3) for i in range(n)]
     for d in dips:
         cx.assume(numpy.dot(d, d) > 0.01, "generic dipoles: |d|^2 above the tolerance filter")
         cx.assume(numpy.dot(d, d) < 100.0)
-    sums, npw = _pathway_sums(cx, energies, dips, 2)
+    sums, npw = _pathway_sums(cx, energies, dips, 2, evolve=evolve, widths=widths)
     cx.prove("pathways_generated", npw > 0)
     mono = {}
     for i, (e, d) in enumerate(zip(energies, dips)):
-        s1, _ = _pathway_sums(cx, [e], [d], 1)
+        s1, _ = _pathway_sums(cx, [e], [d], 1, evolve=(i if i else True) if evolve else False,
+                              widths=None if widths is None else [widths[i]])
         mono.update(s1)
     for key, val in sorted(sums.items()):
-        typ, w1, w3 = key
+        typ, w1, w3 = key[:3]
         if abs(abs(w1) - abs(w3)) > 1e-9:
             cx.prove_eq("cross_peak_cancels%s" % (key,), val, 0, tol=1e-9)
         else:
